@@ -221,6 +221,27 @@ func compareAssignments(r *report.Run, sp *refspec.Spec, spec *common.Spec, ref 
 		}
 		r.Class("sync-committee-compared")
 	}
+	// the sync committees the context reports must be the state's (reference state = spec), member by member
+	if ref.Fork >= refspec.Altair {
+		for _, sc := range []struct {
+			name string
+			got  *common.IndexedSyncCommittee
+			want *refspec.SyncCommittee
+		}{{"current", epc.CurrentSyncCommittee, &ref.CurrentSyncCommittee}, {"next", epc.NextSyncCommittee, &ref.NextSyncCommittee}} {
+			if sc.got == nil {
+				return report.Failf("sync/context-missing", "%s: the context has no %s sync committee for an altair+ state", where, sc.name)
+			}
+			if len(sc.got.Indices) != len(sc.want.Pubkeys) {
+				return report.Failf("sync/context-wrong", "%s: context %s sync committee has %d members, state has %d", where, sc.name, len(sc.got.Indices), len(sc.want.Pubkeys))
+			}
+			for i, vi := range sc.got.Indices {
+				if uint64(vi) >= uint64(len(ref.Validators)) || ref.Validators[vi].Pubkey != sc.want.Pubkeys[i] {
+					return report.Failf("sync/context-wrong", "%s: context %s sync committee member %d is validator %d, whose key is not the state's member %d", where, sc.name, i, vi, i)
+				}
+			}
+		}
+		r.Class("context-sync-committees-compared")
+	}
 	// accounting
 	r.Eval(1)
 	if multi || inactive || nonUniform {
